@@ -130,7 +130,7 @@ pub proof fn lemma_euc_neg_divisor(x: int, b: int)
     lemma_fundamental_div_mod(x, -b);
     let q1 = x / b; let r1 = x % b;
     assert(0 <= r1 < -b) by (nonlinear_arith) requires r1 == x % b, b < 0;
-    assert(x == (-b) * (-q1) + r1) by (nonlinear_arith) requires x == b * q1 + r1;
+    assert(x == (-q1) * (-b) + r1) by (nonlinear_arith) requires x == b * q1 + r1;
     lemma_fundamental_div_mod_converse(x, -b, -q1, r1);
 }
 
